@@ -412,6 +412,7 @@ package vnet
 //@            (old(t.currentTokensInBucket) >= float64(0) ==> t.currentTokensInBucket >= float64(0))
 //@   loop 1 invariant [fifo] fwdN - old(fwdN) == t.queue.head - old(t.queue.head) && fwdN >= old(fwdN) &&
 //@            (forall k mathint :: {fwdNIC[k]} old(fwdN) <= k && k < fwdN ==> fwdNIC[k] == ref(t.NIC) && fwdIdx[k] == old(t.queue.head) + k - old(fwdN) && fwdItem[k] == fwdChunk[k])
+//@   loop 1 invariant? [peeked] next != nil ==> t.queue.tail > t.queue.head && ref(next) == t.queue.item[t.queue.head]
 //@   ghost after pop#1: assert [popped] result$1 && ref(next) == ref(result$0); fwdIdx[fwdN] = t.queue.head - 1; fwdItem[fwdN] = ref(next)
 //@   ghost after onInboundChunk#1: tbIdeal = tbIdeal - float64(chLen[ref(next)]); assert [ideal] tbIdeal >= float64(0) || old(t.currentTokensInBucket) < float64(0)
 
